@@ -59,6 +59,40 @@ Definition p_count_unique (a : arr) : res arr :=
   | [] => Unspec
   | n :: s => Ok (num (Z.of_nat (length (dedup row_eqb (chunk (prodn s) n (adata a)))))) end.
 
+(** FirstSort / LastSort: the leftmost minimal / rightmost maximal row (a scalar is its own row) *)
+Definition p_first_sort (a : arr) : res arr :=
+  if negb (sortable a) then Unspec else
+  match ash a with
+  | [] => Ok a
+  | n :: s => match min_r row_le (chunk (prodn s) n (adata a)) with
+              | None => Err
+              | Some r => Ok (Arr (aty a) s r) end
+  end.
+Definition p_last_sort (a : arr) : res arr :=
+  if negb (sortable a) then Unspec else
+  match ash a with
+  | [] => Ok a
+  | n :: s => match max_r row_le (chunk (prodn s) n (adata a)) with
+              | None => Err
+              | Some r => Ok (Arr (aty a) s r) end
+  end.
+(** SortDown: the rows in descending order (rows that compare equal are identical for numbers and
+    characters, so any descending sort gives this array; [row_gt] makes it the exact reverse of
+    the stable ascending sort for every input of the model) *)
+Definition row_gt (l l' : list elem) : bool := negb (row_le l l').
+Definition p_sort_down (a : arr) : res arr :=
+  if negb (sortable a) then Unspec else
+  match ash a with
+  | [] => Ok a
+  | n :: s => Ok (of_drows (aty a) s (isort row_gt (chunk (prodn s) n (adata a)))) end.
+(** NegAbs: the negated absolute value of every number *)
+Definition p_neg_abs (a : arr) : res arr :=
+  match aty a with
+  | TNum =>
+    d <- mapM (fun e => match e with ENum z => Ok (ENum (- Z.abs z)%Z) | _ => Unspec end) (adata a) ;;
+    Ok (Arr TNum (ash a) d)
+  | _ => Unspec end.
+
 Definition on_top (f : arr -> res arr) (st : list arr) : res (list arr) :=
   match st with a :: r => v <- f a ;; Ok (v :: r) | [] => Err end.
 
@@ -86,7 +120,13 @@ Definition prim_sem (id : N) (st : list arr) : res (list arr) :=
       | 103%N => on_top (p_last_index row_ge) st
       | 104%N => on_top (p_first_index true row_ge) st
       | 105%N => on_top (p_last_index row_le) st
+      | 8%N => step None (OP1 PNeg) st
+      | 19%N => step None (OP1 PAbs) st
       | 112%N => on_top p_count_unique st
+      | 113%N => on_top p_sort_down st
+      | 114%N => on_top p_first_sort st
+      | 115%N => on_top p_last_sort st
+      | 120%N => on_top p_neg_abs st
       | _ => Unspec end
   end.
 
@@ -634,6 +674,262 @@ Proof.
   cbn. rewrite (fall_last_equiv a u E). exact H.
 Qed.
 
+(* ------------------------------------------------------------------ first / last of sort *)
+
+Lemma firstn_concat_hd {A} m (r : list A) rest : length r = m -> firstn m (concat (r :: rest)) = r.
+Proof.
+  intros L. cbn [concat]. rewrite firstn_app, L, Nat.sub_diag. cbn [firstn]. rewrite app_nil_r.
+  apply firstn_all2. lia.
+Qed.
+
+Lemma skipn_concat_last {A} m : forall (l : list (list A)) k r,
+  Forall (fun x => length x = m) l -> length l = S k -> lst l = Some r ->
+  skipn (k * m) (concat l) = r.
+Proof.
+  induction l as [|x t IH]; intros k r F L R; [discriminate|].
+  inversion F as [|? ? Hx Ft]; subst.
+  destruct k as [|k].
+  - destruct t; [|discriminate]. cbn in R |- *. inversion R. apply app_nil_r.
+  - cbn [concat]. rewrite skipn_app.
+    rewrite (skipn_all2 x) by (cbn; lia). cbn [app].
+    replace (S k * length x - length x)%nat with (k * length x)%nat by (cbn; lia).
+    apply IH; auto.
+    cbn [lst] in R. destruct (lst t) eqn:E; [exact R|]. apply lst_none in E. subst t. discriminate.
+Qed.
+
+Lemma isort_rows_len m (l : list (list elem)) :
+  Forall (fun r => length r = m) l -> Forall (fun r => length r = m) (isort row_le l).
+Proof.
+  intros F. apply Forall_forall. intros x Hx. rewrite Forall_forall in F. apply F.
+  eapply Permutation.Permutation_in; [apply isort_perm|exact Hx].
+Qed.
+
+(** sort then first / last = the fused FirstSort / LastSort, failure on an array without rows included *)
+Theorem sort_first_equiv : forall a, wfb a = true ->
+  p_first_sort a = (v <- p_sort a ;; p_first None v).
+Proof.
+  intros [t sh d] W. apply wfb_wf in W. cbn [adata ash] in W.
+  unfold p_first_sort, p_sort. destruct (negb (sortable (Arr t sh d))); [reflexivity|].
+  cbn [ash aty adata]. destruct sh as [|n s]; [reflexivity|].
+  cbn [bind]. unfold of_drows, p_first. cbn [ash aty adata].
+  set (rs := chunk (prodn s) n d).
+  assert (F : Forall (fun r => length r = prodn s) (isort row_le rs)).
+  { apply isort_rows_len. apply chunk_rows_len. unfold prodn in *. cbn [fold_right] in W. lia. }
+  pose proof (hd_isort row_le rs) as H.
+  destruct (isort row_le rs) as [|r0 rest] eqn:E; cbn [hd_error length] in *.
+  - rewrite <- H. reflexivity.
+  - rewrite <- H. inversion F; subst. rewrite firstn_concat_hd by auto. reflexivity.
+Qed.
+
+Theorem sort_last_equiv : forall a, wfb a = true ->
+  p_last_sort a = (v <- p_sort a ;; p_last None v).
+Proof.
+  intros [t sh d] W. apply wfb_wf in W. cbn [adata ash] in W.
+  unfold p_last_sort, p_sort. destruct (negb (sortable (Arr t sh d))); [reflexivity|].
+  cbn [ash aty adata]. destruct sh as [|n s]; [reflexivity|].
+  cbn [bind]. unfold of_drows, p_last. cbn [ash aty adata].
+  set (rs := chunk (prodn s) n d).
+  assert (F : Forall (fun r => length r = prodn s) (isort row_le rs)).
+  { apply isort_rows_len. apply chunk_rows_len. unfold prodn in *. cbn [fold_right] in W. lia. }
+  destruct (lst_isort row_le row_le_total row_le_trans rs) as [H _].
+  rewrite <- H.
+  destruct (isort row_le rs) as [|r0 rest] eqn:E; [reflexivity|].
+  change (length (r0 :: rest)) with (S (length rest)). cbn iota.
+  destruct (lst (r0 :: rest)) as [r|] eqn:L; [|apply lst_none in L; discriminate].
+  rewrite (skipn_concat_last (prodn s) (r0 :: rest) (length rest) r F eq_refl L). reflexivity.
+Qed.
+
+(** rule 19: (Sort, First) -> FirstSort *)
+Theorem rule_sort_first : prule_sound (tuple_rule [PP 43; PP 31] [nFirstSort]).
+Proof.
+  apply tuple2_sound. intros st out W H.
+  unfold prim_sem in *.
+  rewrite (transposeN_small 43) in H by (vm_compute; reflexivity).
+  rewrite (transposeN_small 114) by (vm_compute; reflexivity).
+  destruct st as [|a r]; cbn in H; try discriminate.
+  cbn in W. apply andb_prop in W. destruct W as [Wa Wr].
+  unfold on_top. rewrite (sort_first_equiv a Wa).
+  destruct (p_sort a) as [u| |] eqn:E; cbn in H; try discriminate.
+  destruct (negb (wfb u && forallb wfb r)); try discriminate.
+  try (rewrite (transposeN_small 31) in H by (vm_compute; reflexivity)); cbn in H.
+  cbn. exact H.
+Qed.
+
+(** rule 20: (Sort, Last) -> LastSort *)
+Theorem rule_sort_last : prule_sound (tuple_rule [PP 43; PP 32] [nLastSort]).
+Proof.
+  apply tuple2_sound. intros st out W H.
+  unfold prim_sem in *.
+  rewrite (transposeN_small 43) in H by (vm_compute; reflexivity).
+  rewrite (transposeN_small 115) by (vm_compute; reflexivity).
+  destruct st as [|a r]; cbn in H; try discriminate.
+  cbn in W. apply andb_prop in W. destruct W as [Wa Wr].
+  unfold on_top. rewrite (sort_last_equiv a Wa).
+  destruct (p_sort a) as [u| |] eqn:E; cbn in H; try discriminate.
+  destruct (negb (wfb u && forallb wfb r)); try discriminate.
+  try (rewrite (transposeN_small 32) in H by (vm_compute; reflexivity)); cbn in H.
+  cbn. exact H.
+Qed.
+
+(* ------------------------------------------------------------------ sort / reverse / sort down *)
+
+Section RevSort.
+  Context {A : Type} (le : A -> A -> bool).
+  Hypothesis le_total : forall x y, le x y = true \/ le y x = true.
+  Hypothesis le_trans : forall x y z, le x y = true -> le y z = true -> le x z = true.
+  Let gt := fun a b : A => negb (le a b).
+
+  Lemma insert_gt_end : forall x m, (forall z, In z m -> le x z = true) -> insert gt x m = m ++ [x].
+  Proof.
+    intros x m. induction m as [|z m IH]; intros H; [reflexivity|].
+    cbn [insert]. unfold gt at 1. rewrite (H z (or_introl eq_refl)). cbn [negb app].
+    f_equal. apply IH. intros w Hw. apply H. right; exact Hw.
+  Qed.
+
+  Lemma insert_gt_app : forall x y m, le x y = false -> insert gt x (m ++ [y]) = insert gt x m ++ [y].
+  Proof.
+    intros x y m E. induction m as [|z m IH]; cbn [insert app].
+    - unfold gt. rewrite E. reflexivity.
+    - destruct (gt x z); [reflexivity|]. cbn [app]. f_equal. exact IH.
+  Qed.
+
+  Lemma rev_insert : forall x l, Sorted.StronglySorted (fun a b => le a b = true) l ->
+    rev (insert le x l) = insert gt x (rev l).
+  Proof.
+    intros x l S. induction S as [|y s Ss IH Fy]; [reflexivity|].
+    cbn [insert]. destruct (le x y) eqn:E.
+    - change (rev (x :: y :: s)) with (rev (y :: s) ++ [x]).
+      symmetry. apply insert_gt_end. intros z Hz. apply in_rev in Hz.
+      destruct Hz as [<-|Hz]; [exact E|].
+      rewrite Forall_forall in Fy. apply (le_trans x y z E (Fy z Hz)).
+    - cbn [rev]. rewrite IH. symmetry. apply insert_gt_app. exact E.
+  Qed.
+
+  Lemma rev_isort : forall l, rev (isort le l) = isort gt l.
+  Proof.
+    induction l as [|x t IH]; [reflexivity|].
+    cbn [isort]. rewrite rev_insert, IH; [reflexivity|].
+    apply Sorted.Sorted_StronglySorted.
+    - intros a b c H1 H2. exact (le_trans a b c H1 H2).
+    - apply (isort_sorted le le_total).
+  Qed.
+End RevSort.
+
+Lemma rev_sort_rows : forall rs, rev (isort row_le rs) = isort row_gt rs.
+Proof. intros. apply (rev_isort row_le row_le_total row_le_trans). Qed.
+
+Lemma reverse_of_rows : forall t s (l : list (list elem)), Forall (fun r => length r = prodn s) l ->
+  p_reverse (of_drows t s l) = of_drows t s (rev l).
+Proof.
+  intros t s l F. unfold of_drows, p_reverse. cbn [ash aty adata].
+  rewrite (chunk_concat _ _ F). rewrite rev_length. reflexivity.
+Qed.
+
+(** sort then reverse = SortDown; SortDown then reverse = sort: on every well-formed array *)
+Theorem sort_reverse_equiv : forall a, wfb a = true ->
+  p_sort_down a = (v <- p_sort a ;; Ok (p_reverse v)).
+Proof.
+  intros [t sh d] W. apply wfb_wf in W. cbn [adata ash] in W.
+  unfold p_sort_down, p_sort. destruct (negb (sortable (Arr t sh d))); [reflexivity|].
+  cbn [ash aty adata]. destruct sh as [|n s]; [reflexivity|].
+  cbn [bind]. rewrite reverse_of_rows.
+  - rewrite rev_sort_rows. reflexivity.
+  - apply isort_rows_len. apply chunk_rows_len. unfold prodn in *. cbn [fold_right] in W. lia.
+Qed.
+
+Theorem sortdown_reverse_equiv : forall a, wfb a = true ->
+  p_sort a = (v <- p_sort_down a ;; Ok (p_reverse v)).
+Proof.
+  intros [t sh d] W. apply wfb_wf in W. cbn [adata ash] in W.
+  unfold p_sort_down, p_sort. destruct (negb (sortable (Arr t sh d))); [reflexivity|].
+  cbn [ash aty adata]. destruct sh as [|n s]; [reflexivity|].
+  cbn [bind]. rewrite <- rev_sort_rows. rewrite reverse_of_rows.
+  - rewrite rev_involutive. reflexivity.
+  - apply Forall_rev. apply isort_rows_len. apply chunk_rows_len. unfold prodn in *. cbn [fold_right] in W. lia.
+Qed.
+
+(** rule 17: (Sort, Reverse) -> SortDown *)
+Theorem rule_sort_reverse : prule_sound (tuple_rule [PP 43; PP 33] [nSortDown]).
+Proof.
+  apply tuple2_sound. intros st out W H.
+  unfold prim_sem in *.
+  rewrite (transposeN_small 43) in H by (vm_compute; reflexivity).
+  rewrite (transposeN_small 113) by (vm_compute; reflexivity).
+  destruct st as [|a r]; cbn in H; try discriminate.
+  cbn in W. apply andb_prop in W. destruct W as [Wa Wr].
+  unfold on_top. rewrite (sort_reverse_equiv a Wa).
+  destruct (p_sort a) as [u| |] eqn:E; cbn in H; try discriminate.
+  destruct (negb (wfb u && forallb wfb r)); try discriminate.
+  try (rewrite (transposeN_small 33) in H by (vm_compute; reflexivity)); cbn in H.
+  cbn. exact H.
+Qed.
+
+(** rule 18: (SortDown, Reverse) -> Sort *)
+Theorem rule_sortdown_reverse : prule_sound (tuple_rule [PP 113; PP 33] [nSort]).
+Proof.
+  apply tuple2_sound. intros st out W H.
+  unfold prim_sem in *.
+  rewrite (transposeN_small 113) in H by (vm_compute; reflexivity).
+  rewrite (transposeN_small 43) by (vm_compute; reflexivity).
+  destruct st as [|a r]; cbn in H; try discriminate.
+  cbn in W. apply andb_prop in W. destruct W as [Wa Wr].
+  cbn. rewrite (sortdown_reverse_equiv a Wa).
+  destruct (p_sort_down a) as [u| |] eqn:E; cbn in H; try discriminate.
+  destruct (negb (wfb u && forallb wfb r)); try discriminate.
+  try (rewrite (transposeN_small 33) in H by (vm_compute; reflexivity)); cbn in H.
+  cbn. exact H.
+Qed.
+
+(* ------------------------------------------------------------------ negate of absolute value *)
+
+Definition f_abs (e : elem) : res elem := match e with ENum z => Ok (ENum (Z.abs z)) | _ => Unspec end.
+Definition f_neg (e : elem) : res elem := match e with ENum z => Ok (ENum (- z)%Z) | _ => Unspec end.
+Definition f_neg_abs (e : elem) : res elem := match e with ENum z => Ok (ENum (- Z.abs z)%Z) | _ => Unspec end.
+
+Lemma mapM_abs_neg : forall l d1 d2,
+  mapM f_abs l = Ok d1 -> mapM f_neg d1 = Ok d2 -> mapM f_neg_abs l = Ok d2.
+Proof.
+  induction l as [|x t IH]; intros d1 d2 H1 H2; cbn in *.
+  - inversion H1; subst. cbn in H2. exact H2.
+  - destruct x as [z|c|bt bs bd]; cbn in H1; try discriminate.
+    destruct (mapM f_abs t) as [l0| |] eqn:E1; cbn in H1; try discriminate.
+    inversion H1; subst d1; clear H1. cbn in H2.
+    destruct (mapM f_neg l0) as [l1| |] eqn:E2; cbn in H2; try discriminate.
+    inversion H2; subst d2; clear H2.
+    rewrite (IH l0 l1 eq_refl E2). reflexivity.
+Qed.
+
+Theorem abs_neg_is_neg_abs : forall a u v,
+  p_perv1 PAbs a = Ok u -> p_perv1 PNeg u = Ok v -> p_neg_abs a = Ok v.
+Proof.
+  intros a u v H1 H2. unfold p_perv1 in H1. unfold p_neg_abs.
+  destruct (aty a); try discriminate.
+  change (mapM _ (adata a)) with (mapM f_abs (adata a)) in H1.
+  change (mapM _ (adata a)) with (mapM f_neg_abs (adata a)).
+  destruct (mapM f_abs (adata a)) as [d1| |] eqn:E1; cbn in H1; try discriminate.
+  inversion H1; subst u; clear H1.
+  unfold p_perv1 in H2. cbn [aty adata ash] in H2.
+  change (mapM _ d1) with (mapM f_neg d1) in H2.
+  destruct (mapM f_neg d1) as [d2| |] eqn:E2; cbn in H2; try discriminate.
+  inversion H2; subst v; clear H2.
+  rewrite (mapM_abs_neg _ _ _ E1 E2). reflexivity.
+Qed.
+
+(** rule 28: (Abs, Neg) -> NegAbs *)
+Theorem rule_abs_neg : prule_sound (tuple_rule [PP 19; PP 8] [nNegAbs]).
+Proof.
+  apply tuple2_sound. intros st out W H.
+  unfold prim_sem in *.
+  rewrite (transposeN_small 19) in H by (vm_compute; reflexivity).
+  rewrite (transposeN_small 120) by (vm_compute; reflexivity).
+  destruct st as [|a r]; cbn in H; try discriminate.
+  destruct (p_perv1 PAbs a) as [u| |] eqn:E; cbn in H; try discriminate.
+  destruct (negb (wfb u && forallb wfb r)); try discriminate.
+  try (rewrite (transposeN_small 8) in H by (vm_compute; reflexivity)); cbn in H.
+  destruct (p_perv1 PNeg u) as [v| |] eqn:E2; cbn in H; try discriminate.
+  cbn. rewrite (abs_neg_is_neg_abs a u v E E2). exact H.
+Qed.
+
 (** rule 14: (Deduplicate, Len) -> CountUnique *)
 Theorem rule_dedup_len : prule_sound (tuple_rule [PP 41; PP 37] [nCountUnique]).
 Proof.
@@ -777,15 +1073,17 @@ Qed.
 
 (* ------------------------------------------------------------------ the proved set *)
 
-Definition proved : list rname := [RTuple 1; RTuple 2; RTuple 3; RTuple 4; RTuple 5; RTuple 6; RTuple 14; RTranspose; RPopConst].
+Definition proved : list rname :=
+  [RTuple 1; RTuple 2; RTuple 3; RTuple 4; RTuple 5; RTuple 6; RTuple 14; RTuple 17; RTuple 18; RTuple 19; RTuple 20; RTuple 28;
+   RTranspose; RPopConst].
 (** rules of the current table that are NOT proved here (decided by the differential search only):
-    PseudoIsPrime, where rules, member-of-range rules, RandomRow, the sort rules,
+    PseudoIsPrime, where rules, member-of-range rules, RandomRow, the two select-by-rise/fall sort rules,
     ReplaceRand, the power rules (no reference semantics of power), AbsComplex, SquareAbs, NegAbs,
     and every hand-written Optimization except TransposeOpt and PopConst *)
 Definition listed_unproved : list rname :=
   [RTuple 0; RTuple 7; RTuple 8; RTuple 9; RTuple 10; RTuple 11; RTuple 12; RTuple 13;
-   RTuple 15; RTuple 16; RTuple 17; RTuple 18; RTuple 19; RTuple 20; RTuple 21; RTuple 22; RTuple 23; RTuple 24;
-   RTuple 25; RTuple 26; RTuple 27; RTuple 28;
+   RTuple 15; RTuple 16; RTuple 21; RTuple 22; RTuple 23; RTuple 24;
+   RTuple 25; RTuple 26; RTuple 27;
    RByToDup; RRowsFlip; RInlineCustomInverse; RReduceTable; RReduceDepth; RReduceContent;
    RReduceConjoinInventory; RPath; RSplitBy; RAllSame; RSortedUp; RValidateType].
 
@@ -806,7 +1104,7 @@ Proof.
   repeat (destruct Hi as [<-|Hi];
           [cbn in Hp |- *;
            first [ apply mar_sound; first [ exact rule_reverse_first | exact rule_reverse_last | exact rule_rise_first | exact rule_rise_last | exact rule_fall_last
-                                          | exact rule_fall_first | exact rule_dedup_len | exact rule_transpose
+                                          | exact rule_fall_first | exact rule_dedup_len | exact rule_sort_first | exact rule_sort_last | exact rule_sort_reverse | exact rule_sortdown_reverse | exact rule_abs_neg | exact rule_transpose
                                           | exact rule_pop_const ]
                  | exfalso; repeat (destruct Hp as [Hp|Hp]; [discriminate Hp|]); exact Hp ]|]).
   destruct Hi.
@@ -860,14 +1158,14 @@ Qed.
     implementation value carries are not an input of [prim_sem].  The correspondence check runs the
     real fused primitive on marked and unmarked copies of arrays with tied extremes and compares
     with [prim_sem]: 0 = agreement. *)
-Definition fcase_code (c : N * arr * option Z) : N :=
+Definition fcase_code (c : N * arr * option arr) : N :=
   let '(id, a, expect) := c in
   match prim_sem id [a], expect with
-  | Ok [v], Some z => if arr_eqb v (num z) then 0%N else 1%N
+  | Ok [v], Some e => if arr_eqb v e then 0%N else 1%N
   | Err, None => 0%N
   | Unspec, _ => 2%N
   | _, _ => 1%N end.
-Fixpoint fcodes_from (i : N) (l : list (N * arr * option Z)) : list (N * N) :=
+Fixpoint fcodes_from (i : N) (l : list (N * arr * option arr)) : list (N * N) :=
   match l with [] => [] | c :: t =>
     let k := fcase_code c in
     if N.eqb k 0 then fcodes_from (i + 1)%N t else (i, k) :: fcodes_from (i + 1)%N t end.
